@@ -887,3 +887,32 @@ Proof.
   assert (S : forall l : list row, concat (chunk 1 l) = l) by (intro l; apply chunk_concat; lia).
   specialize (H (fun c F => match F with end) S). vm_compute in H. discriminate.
 Qed.
+
+(* ------------------------------------------------------------------ when pyarrow evaluates *)
+(* A sufficient condition for the "pyarrow does not refuse" hypothesis of api_sql: every column the
+   expression reads exists, scalar literals are comparable with the cells (or NULL is involved), and
+   pyarrow refuses nothing beyond the Python-incomparable pairs (E = nothing). *)
+Fixpoint typed (e : cexpr) (r : row) : Prop :=
+  match e with
+  | Cmp _ c (AVal l) => exists v, lookup c r = Some v /\ (is_null v = true \/ is_null l = true \/ vcmp v l <> None)
+  | Cmp _ _ (AList _) => False
+  | IsIn c _ | IsValid c | IsNull c => lookup c r <> None
+  | Not a => typed a r
+  | And a b => typed a r /\ typed b r
+  | Scalar _ => True
+  end.
+
+Lemma typed_defined X e r : typed e r -> eval3 X (fun _ _ => false) e r <> None.
+Proof.
+  induction e as [op c lit|c vals|a IH|a IHa b IHb|c|c|b]; simpl.
+  - destruct lit as [l|vs]; [|contradiction]. intros [v [L H]]. rewrite L. unfold eval_cmp.
+    destruct (is_null v); simpl; [discriminate|]. destruct (is_null l); simpl; [discriminate|].
+    destruct H as [H|[H|H]]; try discriminate. destruct (vcmp v l); [discriminate|congruence].
+  - destruct (lookup c r); [discriminate|congruence].
+  - intro T. specialize (IH T). destruct (eval3 X _ a r); [discriminate|congruence].
+  - intros [Ta Tb]. specialize (IHa Ta). specialize (IHb Tb).
+    destruct (eval3 X _ a r); [|congruence]. destruct (eval3 X _ b r); [discriminate|congruence].
+  - destruct (lookup c r); [discriminate|congruence].
+  - destruct (lookup c r); [discriminate|congruence].
+  - discriminate.
+Qed.
